@@ -482,6 +482,7 @@ func (f *httpFetcher) fetch(ctx context.Context, rs []region, retry bool) (multi
 	// Request to the registry
 	f.urlMu.Lock()
 	url := f.url
+	header := f.header // read together with url: refreshURL replaces both
 	f.urlMu.Unlock()
 	verifSchedPoint("fetch")
 	req, err := http.NewRequestWithContext(ctx, "GET", url, nil)
@@ -489,7 +490,7 @@ func (f *httpFetcher) fetch(ctx context.Context, rs []region, retry bool) (multi
 		return nil, err
 	}
 	req.Header = http.Header{}
-	maps.Copy(req.Header, f.header)
+	maps.Copy(req.Header, header)
 	var ranges string
 	for _, reg := range requests {
 		ranges += fmt.Sprintf("%d-%d,", reg.b, reg.e)
@@ -556,6 +557,7 @@ func (f *httpFetcher) check() error {
 	}
 	f.urlMu.Lock()
 	url := f.url
+	header := f.header // read together with url: refreshURL replaces both
 	f.urlMu.Unlock()
 	verifSchedPoint("check")
 	req, err := http.NewRequestWithContext(ctx, "GET", url, nil)
@@ -563,7 +565,7 @@ func (f *httpFetcher) check() error {
 		return fmt.Errorf("check failed: failed to make request: %w", err)
 	}
 	req.Header = http.Header{}
-	maps.Copy(req.Header, f.header)
+	maps.Copy(req.Header, header)
 	req.Close = false
 	req.Header.Set("Range", "bytes=0-1")
 	res, err := f.tr.RoundTrip(req)
